@@ -43,7 +43,8 @@ REQUIRED = ["schedules", "distinct_interleavings", "preempting_schedules",
             "inline_hub_runs", "burst_handoffs",
             "handed_over_functions_that_raise", "handoffs_by_cooperative_tasks",
             "wakes_that_found_the_task_queued", "handoffs_through_the_core_object",
-            "locks_created_locked", "releases_by_a_task_that_does_not_hold_the_lock"]
+            "locks_created_locked", "releases_by_a_task_that_does_not_hold_the_lock",
+            "runs_on_a_scheduler_that_is_not_the_default_one"]
 TIMEOUT = {"quick": 1500, "thorough": 10800}
 
 
@@ -144,8 +145,18 @@ def run_scenario (scn, schedule, policy, seed):
   state = {}
 
   def main ():
-    sched = rc.Scheduler(daemon=True, startInThread=False,
-                         threaded_selecthub=scn["threaded_hub"])
+    if scn.get("second_scheduler"):
+      # another scheduler exists in the process (and is the default one); it
+      # is idle.  The hand-offs below are all made to `sched` by name, and
+      # that is the scheduler that has to honour them.
+      state["other"] = rc.Scheduler(isDefaultScheduler=True, daemon=True,
+                                    startInThread=False, threaded_selecthub=False)
+      sched = rc.Scheduler(isDefaultScheduler=False, daemon=True,
+                           startInThread=False,
+                           threaded_selecthub=scn["threaded_hub"])
+    else:
+      sched = rc.Scheduler(daemon=True, startInThread=False,
+                           threaded_selecthub=scn["threaded_hub"])
     state["sched"] = sched
     hub = sched._selectHub
     real_cycle = sched.cycle
@@ -495,6 +506,7 @@ def do_schedule (scn, schedule, policy, seed, rep, case_extra=None):
     rep.inconclusive_because("wall-clock watchdog in C07 scenario")
   rep.count("schedules")
   rep.count("threaded_hub_runs" if scn["threaded_hub"] else "inline_hub_runs")
+  if scn.get("second_scheduler"): rep.count("runs_on_a_scheduler_that_is_not_the_default_one")
   if obs["preemptions"]: rep.count("preempting_schedules")
   rep.maxi("preemptions", obs["preemptions"])
   rep.maxi("yield_points_per_run", obs["steps_taken"])
@@ -561,6 +573,12 @@ SCENARIOS = [
        ticks_stop_with_threads=True, tick_nap=0.5),
   dict(threads=[["sync_long", "cl"], ["cl", "sync_long"]], threaded_hub=False, start_first=True,
        ticks=40, ticks_stop_with_threads=True, tick_nap=0.5),
+  # the scheduler that is handed the work is not the process's default one
+  dict(threads=[["sync"], ["cl"]], threaded_hub=True, start_first=True, second_scheduler=True),
+  dict(threads=[["sync2", "cl"], ["wake"]], threaded_hub=False, start_first=True,
+       second_scheduler=True),
+  dict(threads=[["cl", "rl"], ["wake", "sync"]], threaded_hub=True, start_first=False,
+       second_scheduler=True),
 ]
 
 
